@@ -82,7 +82,7 @@ func c19M6Caller(r *core.R, m *c19Model, s *c19Search, tsFld *types.Var) {
 			ord := ord
 			u := m.orderWalk(st.b, st.idx, ops.atom(ord, found), ops, func(n ast.Node) bool {
 				if ret, ok := n.(*ast.ReturnStmt); ok && ord < 0 && badAns == nil {
-					if res := m.okResults(C, ret); len(res) > 0 && objOf(info, res[0]) == s.loVar {
+					if res := m.okResults(C, ret); len(res) > 0 && c19Target(info, ast.Unparen(res[0])) == s.loVar {
 						badAns = n
 					}
 				}
